@@ -218,7 +218,13 @@ def path_conditions(fi, target):
 
     body = fi.node.body if isinstance(fi.node.body, list) else [ast.Expr(fi.node.body)]
     visit_block(body)
-    return found
+    # one form per fact: a leading `not` is folded into the polarity, so `if not c: B else: A` reads like `if c: A else: B`
+    out = []
+    for cond, pol, kind in found:
+        while isinstance(cond, ast.UnaryOp) and isinstance(cond.op, ast.Not):
+            cond, pol = cond.operand, not pol
+        out.append((cond, pol, kind))
+    return out
 
 
 def enclosing_stmts(fi, target, types=(ast.With, ast.If, ast.For, ast.While, ast.Try)):
